@@ -9,4 +9,4 @@ Extraction Language OCaml.
 Extraction "model.ml"
   FilterCase.filter_case FilterCase.monitor_C09 FilterCase.monitor_C18_all
   ReasmRs.run_log ReasmRs.monitor_C16
-  Model.step Model.init Model.wire_type Monitors.monitor_step Monitors.mstate0.
+  Model.step Model.init Model.wire_type Monitors.monitor_step Monitors.mall0.
